@@ -87,7 +87,7 @@ def _format_column(col, max_preview: int | None = None) -> List[str]:
 	# Type-sensitive formatting
 	out = []
 	for v in preview:
-		if v == '...':
+		if isinstance(v, str) and v == '...':
 			out.append('...')
 		elif v is None:
 			out.append('None')
